@@ -25,6 +25,7 @@ type SideOpts struct {
 	SrvSplit   int  `json:"srv_split,omitempty"` // >0 and at least two interceptors: 1 the first through UnaryInterceptor/StreamInterceptor and the rest through one Chain option; k>1 two Chain options, split after (k-1) mod (n-1) + 1
 	CliUnary   int  `json:"cli_unary"`  // 0..3 (1 through goat's option, 2..3 composed by the harness)
 	CliStream  int  `json:"cli_stream"`
+	CliWrap    bool `json:"cli_wrap,omitempty"` // client stream interceptors return a wrapper around the stream
 	SrvStats   int  `json:"srv_stats"`
 	CliStats   int  `json:"cli_stats"`
 	Transform  bool `json:"transform"` // interceptors rewrite request, reply and error
@@ -42,6 +43,7 @@ func drawSideOpts(g *rand.Rand) SideOpts {
 	}
 	o.CliUnary = g.IntN(4)
 	o.CliStream = g.IntN(4)
+	o.CliWrap = g.IntN(2) == 0
 	o.SrvStats = g.IntN(4)
 	o.CliStats = g.IntN(4)
 	return o
@@ -214,9 +216,17 @@ func (s *SideObs) cliStream(i int) grpc.StreamClientInterceptor {
 		ctx = metadata.AppendToOutgoingContext(ctx, icptKey, "c"+strconv.Itoa(i))
 		st, err := streamer(ctx, desc, cc, method, opts...)
 		s.rec('c', i, false, call, "")
+		if err == nil && s.o.CliWrap {
+			// what logging / metrics / retry interceptors do: hand back a wrapper
+			st = wrappedClientStream{st}
+		}
 		return st, err
 	}
 }
+
+// wrappedClientStream hides the concrete stream type, as client interceptors that
+// decorate streams do.
+type wrappedClientStream struct{ grpc.ClientStream }
 
 // composeUnary chains client interceptors the way grpc.WithChainUnaryInterceptor does.
 func composeUnary(ics []grpc.UnaryClientInterceptor) grpc.UnaryClientInterceptor {
